@@ -60,10 +60,11 @@ def base_pair(cls: int, seed: int = 0):
     if cls == 3:
         im[0, 0] = np.nan
         im[2, 3] = np.nan
+        disp = (1, 1)  # a point interval (min == max) is well-formed
     l = build.image_dataset(im, disp=disp, bands=bands, **kw)
     rdisp = None
     if cls == 3:
-        rdisp = (-2, 2)
+        rdisp = (-1, -1)
     if cls == 2:
         rdisp = (-disp[1], -disp[0])
     r = build.image_dataset(np.roll(im, 1, axis=-1), disp=rdisp, bands=bands, **kw)
@@ -237,7 +238,8 @@ def write_base(d, cls):
         right["disp"] = f["rgrid"]
         left["nodata"] = "NaN"
     else:
-        left.update(disp=[-3, 0], mask=f["mask"], classif=f["classif"], segm=f["segm"], nodata=0)
+        # a point interval (min == max) is well-formed
+        left.update(disp=[1, 1], mask=f["mask"], classif=f["classif"], segm=f["segm"], nodata=0)
         right.update(mask=f["mask"], classif=f["classif"], segm=f["segm"], nodata=-9999, disp=None)
     return f, {"left": left, "right": right}
 
